@@ -16,27 +16,49 @@ LEVEL = "exploration"
 PRESETS = {"exact": 0, "default": 6}
 
 
+ISO_MENU = {
+    "A1": lambda S: [S(0), S(1), S(2), S(3), S(4)],
+    "A2": lambda S: [S(0), S(2), S(3), S(4)],                        # intron nested: A2's intron 0-2 contains A1's introns
+    "A3": lambda S: [S(0), S(1, de=100), S(2), S(4)],                 # overlapping exon (alternative donor +100)
+    "A4": lambda S: [S(0), S(1, ds=60, de=-60), S(2), S(3), S(4)],    # contained exon
+    "A5": lambda S: [S(2), S(3)],
+    "A6": lambda S: [S(0, de=-80), S(3, ds=-90), S(4)],               # alternative donor and acceptor on a long nested intron
+    "A7": lambda S: [S(1), S(2, ds=40)],                              # alternative first exon + alternative acceptor
+}
+SECOND = ("none", "same-strand", "antisense", "mono-in-intron", "same+anti")
+
+
 def annotation(variant):
-    """gene GA (+): isoforms over slots with an alternative longer exon-2 boundary, a contained exon and a nested intron;
-       gene GB (+) overlapping GA and sharing one exon; gene GC far away (second cluster of reads of GA uses GA's last exons)"""
+    """variant: 0/1/2 (the original cumulative annotations) or a tuple (isoform ids, second-gene kind) from the grammar:
+       gene GA (+) with any subset of ISO_MENU; second gene GB (+) sharing exons 3,4 / GM (-) antisense sharing exons 1,2 /
+       GI mono-exonic inside GA's intron 0-1; plus intron-less loci far away"""
     S = lambda i, ds=0, de=0: [1000 + 700 * i + 1 + ds, 1000 + 700 * i + 250 + de]
-    genes = []
-    ts = [{"id": "A1", "exons": [S(0), S(1), S(2), S(3), S(4)]},
-          {"id": "A2", "exons": [S(0), S(2), S(3), S(4)]},                       # intron nested: A2's intron 0-2 contains A1's introns
-          {"id": "A3", "exons": [S(0), S(1, de=100), S(2), S(4)]},                # overlapping exon (alternative donor +100)
-          {"id": "A4", "exons": [S(0), S(1, ds=60, de=-60), S(2), S(3), S(4)]}]   # contained exon
-    if variant >= 1:
-        ts.append({"id": "A5", "exons": [S(2), S(3)]})
-    genes.append({"id": "GA", "chr": "chr1", "strand": "+", "transcripts": ts})
-    if variant >= 1:
+    if not isinstance(variant, tuple):
+        variant = {0: (("A1", "A2", "A3", "A4"), "none"), 1: (("A1", "A2", "A3", "A4", "A5"), "same-strand"),
+                   2: (("A1", "A2", "A3", "A4", "A5"), "same+anti")}[variant]
+    isos, second = variant
+    genes = [{"id": "GA", "chr": "chr1", "strand": "+", "transcripts": [{"id": t, "exons": ISO_MENU[t](S)} for t in isos]}]
+    if second in ("same-strand", "same+anti"):
         genes.append({"id": "GB", "chr": "chr1", "strand": "+", "transcripts": [{"id": "B1", "exons": [S(3), S(4), S(5)]}]})   # shares exons 3,4 with GA
-    if variant >= 2:
+    if second in ("antisense", "same+anti"):
         genes.append({"id": "GM", "chr": "chr1", "strand": "-", "transcripts": [{"id": "M1", "exons": [S(1), S(2)]}]})         # antisense sharing exons
+    if second == "mono-in-intron":
+        genes.append({"id": "GI", "chr": "chr1", "strand": "-", "transcripts": [{"id": "I1", "exons": [[1351, 1600]]}]})       # inside intron 0-1
     # loci without any annotated intron: a mono-exonic gene alone, and two overlapping mono-exonic genes on opposite strands
     genes.append({"id": "GS", "chr": "chr1", "strand": "+", "transcripts": [{"id": "S1", "exons": [[9501, 10100]]}]})
     genes.append({"id": "GP", "chr": "chr1", "strand": "+", "transcripts": [{"id": "P1", "exons": [[11501, 12000]]}]})
     genes.append({"id": "GQ", "chr": "chr1", "strand": "-", "transcripts": [{"id": "Q1", "exons": [[11801, 12300]]}]})
     return genes, S
+
+
+def has_b(variant):
+    if isinstance(variant, tuple):
+        return variant[1] in ("same-strand", "same+anti")
+    return variant >= 1
+
+
+def vtag(variant):
+    return str(variant) if not isinstance(variant, tuple) else "-".join(variant[0]) + "_" + variant[1].replace("+", "")
 
 
 def make_world(variant, two_clusters):
@@ -72,6 +94,10 @@ def make_world(variant, two_clusters):
     # alternative forms
     add([S(0), S(1, de=100), S(2)], next(grp))
     add([S(0), S(1, ds=60, de=-60), S(2)], next(grp))
+    if not two_clusters:
+        add([S(0, de=-80), S(3, ds=-90), S(4)], next(grp))
+        add([S(1), S(2, ds=40), S(3)], next(grp))
+        add([[1351, 1600]], next(grp), strand="-")
     # mono-exonic reads inside an exon, inside an intron, spanning exon+intron partially
     add([[1000 + 700 + 41, 1000 + 700 + 200]], next(grp))
     add([[1300, 1650]], next(grp))
@@ -89,7 +115,7 @@ def make_world(variant, two_clusters):
         # a second, disjoint cluster of reads of the same gene (last exons): the gene is loaded for two processing regions
         add([S(4)], next(grp))
         add([[1000 + 700 * 4 + 31, 1000 + 700 * 4 + 220]], next(grp))
-        if variant >= 1:
+        if has_b(variant):
             add([S(4), S(5)], next(grp))
     w["reads"] = reads
     return w
@@ -184,7 +210,7 @@ def case(args):
     from vlib import syn, run
     delta = PRESETS[preset]
     w = make_world(variant, two_clusters)
-    d = os.path.join(scratch, "c13_%d_%d_%s_%d" % (variant, two_clusters, preset, grouped))
+    d = os.path.join(scratch, "c13_%s_%d_%s_%d" % (vtag(variant), two_clusters, preset, grouped))
     shutil.rmtree(d, ignore_errors=True)
     paths = syn.materialise(w, d)
     out = os.path.join(d, "out")
@@ -291,11 +317,25 @@ def run(ctx):
             for preset in PRESETS:
                 for grouped in (0, 1):
                     jobs.append((variant, two, preset, grouped, ctx.scratch))
+    # annotation grammar: every subset of <=2 (quick) / <=3 (thorough) isoform shapes x second-gene kinds
+    ids = sorted(ISO_MENU)
+    k = 0
+    for n in range(1, (2 if quick else 3) + 1):
+        for isos in itertools.combinations(ids, n):
+            for second in SECOND:
+                if second == "same+anti" and quick:
+                    continue
+                for preset in PRESETS:
+                    for grouped in (0, 1):
+                        k += 1
+                        if quick and (k % 4) != (len(isos) + SECOND.index(second)) % 4:
+                            continue            # quick: one (preset, grouping) combination per annotation, rotating
+                        jobs.append(((isos, second), 0, preset, grouped, ctx.scratch))
     nrows = 0
     for key, errs, nf in core.pmap(case, jobs):
         nrows += nf
         for k, msg in errs:
-            ctx.violation(k + (":two-regions" if key[1] else ""), "annotation variant %d, two read clusters=%d, preset %s, grouped=%d: %s" % (key + (msg,)),
+            ctx.violation(k + (":two-regions" if key[1] else ""), "annotation variant %s, two read clusters=%d, preset %s, grouped=%d: %s" % (key + (msg,)),
                           {"case": list(key)})
     ctx.note("%d pipeline runs, %d feature rows compared with the recount" % (len(jobs), nrows))
     ctx.coverage.update({
@@ -309,5 +349,8 @@ def run(ctx):
 
 
 def replay(ctx, case_):
-    key, errs, n = case(tuple(case_["case"]) + (ctx.scratch,))
+    c = list(case_["case"])
+    if isinstance(c[0], list):
+        c[0] = (tuple(c[0][0]), c[0][1])
+    key, errs, n = case(tuple(c) + (ctx.scratch,))
     return errs[0][1] if errs else None
